@@ -141,3 +141,11 @@ PROPS = {
               assumptions=["the correspondence samples histories; the bounded-exhaustive family of the property's quantifier is part of the thorough tier"]),
     "C04": fw([("general", 1500, 30000)], {"A", "AT", "res", "len"}, mech=["aP", "aB", "aT", "aC"]),
 }
+
+# property tables contributed by other modules (props_<area>.py define PROPS dicts)
+for _m in ("props_sim", "props_codec", "props_val", "props_ffi", "props_fw"):
+    try:
+        _mod = __import__(_m)
+        PROPS.update(_mod.PROPS)
+    except ImportError:
+        pass
